@@ -1534,6 +1534,8 @@ class Interp(object):
         v = self.eval(s.exc, env, fr)
         if isinstance(v, (ClassV, ExtClass)):
             v = self.call(v, [], {}, fr)
+        if isinstance(v, Obj) and not hasattr(v, 'raised_at'):
+            v.raised_at = '%s:%d' % (getattr(fr.func, 'qualname', fr.func), getattr(s, 'lineno', 0))
         raise PyRaise(v)
 
     def s_Try(self, s, env, fr):
@@ -1632,6 +1634,9 @@ class ExtAttr(object):
         return ExtAttr(self.mod, self.attr + '.' + name)
 
     def pv_call(self, I, fr, args, kwargs):
+        cut = getattr(fr.st, 'ext_cuts', {}).get(self.mod + '.' + self.attr)
+        if cut is not None:
+            return cut(I, fr, *args, **kwargs)
         raise Unsupported('call of unmodelled external %s.%s' % (self.mod, self.attr))
 
     def __repr__(self):
